@@ -164,6 +164,26 @@ where CL03<CS>: Scheme<PubKey = CL03PublicKey, PrivKey = CL03SecretKey>, CS::Has
                     let ct_new = Commitment::<CL03<CS>>::commit_with_commitment_pk(&mv, &w.cpk_own, Some(&r.u));
                     refuse("issuer requires a trusted commitment the proof does not cover".into(), "missing-trusted-part", &f.zkpok, f.c.cl03Commitment(), Some(ct_new.cl03Commitment()), &w.pk, &w.sk, &bases, Some(&w.cpk_own), &r.u);
                 }
+                // sub-proofs of ANOTHER honest request (other hidden attributes, same positions) put in place of this proof's
+                {
+                    if let O::Ok(f2) = holder::<CS>(w, n, &m_other, &r.u, r.trusted) {
+                        let (mut x, qj) = (to_json(&f.zkpok), to_json(&f2.zkpok));
+                        for key in ["proofs_commited_mi", "range_proofs_mi", "proof_r", "range_proof_r"] { x["CL03"][key] = qj["CL03"][key].clone(); }
+                        if let Some(z) = from_json::<ZKPoK<CL03<CS>>>(&x) { refuse("per-attribute sub-proofs, randomness proof and range proofs taken from a proof about another commitment".into(), "sub-proof-transplant", &z, f.c.cl03Commitment(), ct, &w.pk, &w.sk, &bases, cpk, &r.u); }
+                    }
+                }
+                // the issuer's own inputs in other spellings / inconsistent combinations
+                if r.trusted {
+                    let ctv = ct.unwrap();
+                    let n2 = &w.cpk_own.N;
+                    let plus = CL03Commitment { value: ctv.value.clone() + n2, randomness: ctv.randomness.clone() };
+                    refuse("trusted commitment given as C_trusted + N'".into(), "trusted-representative", &f.zkpok, f.c.cl03Commitment(), Some(&plus), &w.pk, &w.sk, &bases, cpk, &r.u);
+                    // a trusted commitment to OTHER attributes with the commitment key left out: the check must not be skipped silently
+                    let ct_other = Commitment::<CL03<CS>>::commit_with_commitment_pk(&mvo, &w.cpk_own, Some(&r.u));
+                    refuse("trusted commitment to other attributes, commitment key not supplied".into(), "trusted-without-key", &f.zkpok, f.c.cl03Commitment(), Some(ct_other.cl03Commitment()), &w.pk, &w.sk, &bases, None, &r.u);
+                }
+                { let cv = f.c.cl03Commitment(); let plus = CL03Commitment { value: cv.value.clone() + &w.pk.N, randomness: cv.randomness.clone() };
+                  refuse("commitment given as C + N".into(), "commitment-representative", &f.zkpok, &plus, ct, &w.pk, &w.sk, &bases, cpk, &r.u); }
                 if n == 2 && r.u == vec![1] && !r.trusted { env.ctx.sample(json!({"root": r.id, "flow": "commit_with_pk -> generate_proof -> verify_proof -> blind_sign -> unblind_sign -> verify_multiattr; mismatches: other commitment, every other hidden set, other bases, other key, trusted part"})); }
             }
             Kind::SignFlip => {
